@@ -84,11 +84,32 @@ func runPortfolio(script string, dir string, name string, timeout time.Duration,
 		solver, result, out string
 		secs               float64
 	}
-	ch := make(chan r, len(solvers))
-	var wg sync.WaitGroup
+	// relevance-sliced variant (slice.go): only an unsat answer of it counts
+	type variant struct {
+		s      solverSpec
+		file   string
+		sliced bool
+	}
+	var variants []variant
 	for _, s := range solvers {
+		variants = append(variants, variant{s, file, false})
+	}
+	if sl, ok := sliceScript(script); ok && !all {
+		sfile := filepath.Join(dir, name+".sliced.smt2")
+		if err := os.WriteFile(sfile, []byte(sl), 0o644); err == nil {
+			for _, s := range solvers[:2] {
+				s2 := s
+				s2.name = s.name + "/sliced"
+				variants = append(variants, variant{s2, sfile, true})
+			}
+		}
+	}
+	ch := make(chan r, len(variants))
+	var wg sync.WaitGroup
+	for _, v := range variants {
 		wg.Add(1)
-		go func(s solverSpec) {
+		go func(v variant) {
+			s, file := v.s, v.file
 			defer wg.Done()
 			t0 := time.Now()
 			cctx, ccancel := context.WithTimeout(ctx, timeout+2*time.Second)
@@ -113,8 +134,12 @@ func runPortfolio(script string, dir string, name string, timeout time.Duration,
 			case strings.HasPrefix(first, "(error") || strings.Contains(first, "rror"):
 				res = "error"
 			}
+			if v.sliced && res != "unsat" {
+				res = "unknown" // hypotheses were dropped: only a proof transfers to the full problem
+				txt = ""
+			}
 			ch <- r{s.name, res, txt, time.Since(t0).Seconds()}
-		}(s)
+		}(v)
 	}
 	go func() { wg.Wait(); close(ch) }()
 	out := solveOut{result: "unknown", perSolver: map[string]float64{}, both: map[string]string{}}
